@@ -384,12 +384,15 @@ impl Bucket {
     }
 //@end
 
-//@begin fn src/bucket.rs impl:Bucket add_node props=C08
+//@begin fn src/bucket.rs impl:Bucket add_node props=C08,C10
     pub fn add_node(&mut self, new_node: Node) -> (r: bool)
         requires new_node.wf(), old(self).wf(),
             new_node.last_request is None || forall|i: int| 0 <= i < 8 && same_handle(#[trigger] old(self).nodes[i], new_node) ==> st(old(self).nodes[i]) != NodeStatus::Good,
         ensures final(self).wf(),
-            (final(self).nodes@, r) == bucket_add_spec(old(self).nodes@, new_node), // @C08.bucket_add_functional_spec
+            (final(self).nodes@, r) == bucket_add_spec(old(self).nodes@, new_node), // @carrier.bucket_add_functional_spec
+            // C10: an answer or a mention of a contact that is already listed reaches its record (Node::update), whatever its standing
+            st(new_node) != NodeStatus::Bad ==> forall|i: int| 0 <= i < 8 && i == first(old(self).nodes@, p_same(new_node), 0)
+                ==> #[trigger] final(self).nodes@[i] == old(self).nodes@[i].update_spec(new_node), // @C10.repeat_offer_reaches_the_record
             old(self).nodup() ==> final(self).nodup(), // @C08.no_duplicate_handle
             forall|j: int| 0 <= j < 8 && real(#[trigger] final(self).nodes[j]) ==> (real(old(self).nodes[j]) && same_handle(final(self).nodes[j], old(self).nodes[j])) || same_handle(final(self).nodes[j], new_node),
             forall|j: int| 0 <= j < 8 ==> #[trigger] final(self).nodes[j] == old(self).nodes[j] || (same_handle(final(self).nodes[j], new_node) && real(new_node)),
